@@ -354,7 +354,7 @@ def parse_lines(text):
                 recs.append(("DONE", None))
             continue
         tag, rest = line[0], line[2:]
-        if tag in ("V", "T", "M"):
+        if tag in ("V", "T", "M", "X"):
             try:
                 recs.append((tag, json.loads(rest)))
             except Exception:
@@ -364,10 +364,10 @@ def parse_lines(text):
     return recs
 
 
-def run_batch(binp, ids, timeout=3600, phases=None):
+def run_batch(binp, ids, timeout=3600, phases=None, budget=None, only=None):
     """Run one batch binary to completion, restarting after crashes. Returns dict with
-    per-subject stats, violations, machinery messages and crashes."""
-    res = {"stats": {}, "violations": [], "machinery": [], "crashes": []}
+    per-subject stats, violations, machinery messages, crashes and watchdog timeouts."""
+    res = {"stats": {}, "violations": [], "machinery": [], "crashes": [], "timeouts": []}
     skip = []
     todo = list(ids)
     rounds = 0
@@ -381,12 +381,17 @@ def run_batch(binp, ids, timeout=3600, phases=None):
             cmd += ["--skip", ",".join(skip)]
         if phases:
             cmd += ["--phases", ",".join(phases)]
+        if budget:
+            cmd += ["--budget", str(int(budget))]
+        if only:
+            cmd += ["--only", ",".join(only)]
         try:
             p = subprocess.run(cmd, stdout=subprocess.PIPE, stderr=subprocess.PIPE, env=ENV, timeout=timeout)
         except subprocess.TimeoutExpired:
             res["machinery"].append({"msg": "batch %s timed out after %ds" % (binp, timeout)})
             break
         recs = parse_lines(p.stdout.decode(errors="replace"))
+        timed_out = None
         cur = None
         phase = None
         done = False
@@ -405,10 +410,20 @@ def run_batch(binp, ids, timeout=3600, phases=None):
                 res["machinery"].append(val)
             elif tag == "T":
                 res["stats"][val["id"]] = val
+            elif tag == "X":
+                timed_out = val
             elif tag == "DONE":
                 done = True
         if done and p.returncode == 0:
             break
+        if timed_out is not None and p.returncode == 3:
+            res["timeouts"].append({"id": timed_out["id"], "phase": phase, "budget_s": timed_out["budget_s"], "bin": binp})
+            skip = sorted(set(skip) | finished | {timed_out["id"]})
+            if only or len(res["timeouts"]) >= 2:
+                # one confirmed hang is a verdict; do not spend the budget again on every further subject of this batch
+                res["abandoned_after_timeouts"] = True
+                break
+            continue
         if cur is None:
             res["machinery"].append({"msg": "batch %s exited %s without a running subject: %s" % (
                 binp, p.returncode, p.stderr.decode(errors="replace")[-1500:])})
@@ -420,13 +435,27 @@ def run_batch(binp, ids, timeout=3600, phases=None):
     return res
 
 
-def run_workspace(batches, phases=None, timeout=3600):
-    """Run all batch binaries in parallel; merge results."""
-    merged = {"stats": {}, "violations": [], "machinery": [], "crashes": []}
+def run_workspace(batches, phases=None, timeout=3600, budget=None):
+    """Run all batch binaries in parallel; merge results. A subject that exceeded its wall-clock budget is run once more on its
+    own with three times the budget: if it exceeds that too it is reported under "hangs" (a call that does not return), otherwise
+    its results are merged normally."""
+    merged = {"stats": {}, "violations": [], "machinery": [], "crashes": [], "timeouts": [], "hangs": []}
     with cf.ThreadPoolExecutor(max_workers=NCPU) as ex:
-        futs = [ex.submit(run_batch, binp, ids, timeout, phases) for (_n, ids, binp) in batches]
+        futs = [ex.submit(run_batch, binp, ids, timeout, phases, budget) for (_n, ids, binp) in batches]
         for f in futs:
             r = f.result()
+            merged["stats"].update(r["stats"])
+            merged["violations"] += r["violations"]
+            merged["machinery"] += r["machinery"]
+            merged["crashes"] += r["crashes"]
+            merged["timeouts"] += r["timeouts"]
+            if r.get("abandoned_after_timeouts"):
+                merged["abandoned"] = merged.get("abandoned", 0) + 1
+    for t in merged["timeouts"][:3]:
+        r = run_batch(t["bin"], [t["id"]], timeout, phases, budget=3 * (budget or 300), only=[t["id"]])
+        if r["timeouts"]:
+            merged["hangs"].append(dict(t, budget_s=r["timeouts"][0]["budget_s"], phase=r["timeouts"][0].get("phase") or t.get("phase")))
+        else:
             merged["stats"].update(r["stats"])
             merged["violations"] += r["violations"]
             merged["machinery"] += r["machinery"]
